@@ -123,6 +123,12 @@ def apply_contract(spec, fnode):
         tag = "call[%s]#%d" % (spec.name(), k)
         c0 = Ctx(ex, st, st, a)
         for nm, f in spec.requires(c0):
+            if nm.startswith("python."):
+                # a type invariant of a built-in Python value (dict insertion order, distinct parameter names of a
+                # Signature): true of every such value by construction; assumed, and listed as trusted
+                st.assume(f)
+                ex.registry.assumptions.add("type invariant " + nm)
+                continue
             ex.oblige(st, "%s.requires.%s" % (tag, nm), f, kind="requires")
         pre = st.copy()
         ghost = spec.call_events(ex, st, Ctx(ex, pre, st, a)) or {}
@@ -235,6 +241,7 @@ def verify_unit(spec, registry, fuel=2, timeout_ms=10000, mutate=None, prop=None
         pre = st.copy()
         for s, o in ex.exec_block(st, fnode.body):
             ex.paths += 1
+            registry.at_exit(ex, s)
             cc = Ctx(ex, pre, s, a)
             parts = []
             if o is NORMAL or o[0] == "return":
